@@ -418,36 +418,65 @@ func sameNilSubject(a, b ssa.Value) bool {
 
 // walker is the shared worklist of all CFG traversals: states are (block, the
 // predecessor it was entered from) for threadable blocks and plain blocks
-// otherwise.
+// otherwise. A state also remembers the nearest threadable block upstream and
+// the edge it was entered by, as long as the path since then ran through
+// single-predecessor blocks only: a chain of tests on one merged value (a
+// `switch kind {...}` on a phi, an `if`/`else if` ladder) is decided for every
+// link, not just the first.
 type walker struct {
-	seen    map[[2]int]bool
+	seen    map[[4]int]bool
 	stack   []wstate
 	blocked map[Edge]bool
 }
 
-type wstate struct{ b, pred *ssa.BasicBlock }
+type wstate struct {
+	b, pred *ssa.BasicBlock
+	ctxB    *ssa.BasicBlock // upstream block whose phis are known on this path
+	ctxPi   int             // ... by the index of the edge it was entered from
+}
 
 func newWalker(blocked map[Edge]bool) *walker {
-	return &walker{seen: map[[2]int]bool{}, blocked: blocked}
+	return &walker{seen: map[[4]int]bool{}, blocked: blocked}
 }
 
 // push enters `to` from `from` (nil: a start state) unless the edge is blocked
 // or the state was already visited.
 func (w *walker) push(from, to *ssa.BasicBlock) {
+	w.pushState(wstate{b: from}, to)
+}
+
+// pushState enters `to` from state s (s.b nil: a start state).
+func (w *walker) pushState(s wstate, to *ssa.BasicBlock) {
+	from := s.b
 	if from != nil && w.blocked != nil && w.blocked[Edge{from.Index, to.Index}] {
 		return
 	}
-	k := [2]int{to.Index, -1}
-	var pred *ssa.BasicBlock
-	if from != nil && threadable(to) {
+	k := [4]int{to.Index, -1, -1, -1}
+	n := wstate{b: to}
+	switch {
+	case from != nil && threadable(to):
 		k[1] = predIndex(to, from)
-		pred = from
+		n.pred = from
+	case from != nil && len(to.Preds) == 1:
+		// inherit what is known about an upstream merge
+		if s.pred != nil && threadable(from) {
+			n.ctxB, n.ctxPi = from, predIndex(from, s.pred)
+		} else if s.ctxB != nil {
+			n.ctxB, n.ctxPi = s.ctxB, s.ctxPi
+		}
+		if n.ctxB != nil {
+			if n.ctxPi < 0 {
+				n.ctxB = nil
+			} else {
+				k[2], k[3] = n.ctxB.Index, n.ctxPi
+			}
+		}
 	}
 	if w.seen[k] {
 		return
 	}
 	w.seen[k] = true
-	w.stack = append(w.stack, wstate{to, pred})
+	w.stack = append(w.stack, n)
 }
 
 func (w *walker) pop() (wstate, bool) {
@@ -459,10 +488,29 @@ func (w *walker) pop() (wstate, bool) {
 	return s, true
 }
 
+// succsOf returns the feasible successors of state s.
+func succsOf(s wstate) []*ssa.BasicBlock {
+	out := feasibleSuccs(s.b, s.pred)
+	if len(out) < 2 || s.ctxB == nil || s.ctxPi < 0 || s.ctxPi >= len(s.ctxB.Preds) {
+		return out
+	}
+	iff, ok := s.b.Instrs[len(s.b.Instrs)-1].(*ssa.If)
+	if !ok || !condUsesPhiOf(iff.Cond, s.ctxB, 0) {
+		return out
+	}
+	switch evalCond(iff.Cond, s.ctxB, s.ctxPi, s.ctxB.Preds[s.ctxPi], 0) {
+	case triTrue:
+		return s.b.Succs[:1]
+	case triFalse:
+		return s.b.Succs[1:2]
+	}
+	return out
+}
+
 // pushSuccs enters the feasible successors of s.
 func (w *walker) pushSuccs(s wstate) {
-	for _, t := range feasibleSuccs(s.b, s.pred) {
-		w.push(s.b, t)
+	for _, t := range succsOf(s) {
+		w.pushState(s, t)
 	}
 }
 
